@@ -67,7 +67,10 @@ func (p *forExpander) next() token {
 }
 
 func (f *forExpander) run() {
-	if f.closed || f.atEOF {
+	// closing the channel tells the consumer that nothing more will be sent
+	defer close(f.tokens)
+
+	if f.atEOF {
 		return
 	}
 	for state := forLine; state != nil; {
@@ -77,28 +80,39 @@ func (f *forExpander) run() {
 	// add an extra EOF in case we end without one
 	// we don't want to block on reading from the channel
 	f.tokens <- token{tokEOF, ""}
-	f.closed = true
 }
 
 func (f *forExpander) NextToken() (token, error) {
 	if f.closed {
 		return token{}, fmt.Errorf("no more tokens")
 	}
-	return <-f.tokens, nil
+	tok, ok := <-f.tokens
+	if !ok {
+		f.closed = true
+		return token{}, fmt.Errorf("no more tokens")
+	}
+	return tok, nil
 }
 
+// Tokens returns the tokens up to and including the first EOF or error
+// token. The rest of the stream is drained so that the producing goroutine
+// always runs to completion instead of blocking on a send nobody receives.
 func (f *forExpander) Tokens() ([]token, error) {
 	if f.closed {
 		return nil, fmt.Errorf("no more tokens")
 	}
 	tokens := make([]token, 0)
-	for !f.closed {
-		tok := <-f.tokens
+	done := false
+	for tok := range f.tokens {
+		if done {
+			continue
+		}
 		tokens = append(tokens, tok)
 		if tok.typ == tokEOF || tok.typ == tokError {
-			break
+			done = true
 		}
 	}
+	f.closed = true
 	return tokens, nil
 }
 
@@ -371,6 +385,10 @@ func forRof(f *forExpander) forStateFn {
 func forEmitConsumeStream(f *forExpander) forStateFn {
 	for f.nextToken.typ != tokEOF {
 		f.tokens <- f.nextToken
+		if f.nextToken.typ == tokError {
+			// an error token ends the input: next() would not move past it
+			return nil
+		}
 		f.next()
 	}
 	return nil
